@@ -15,6 +15,7 @@ Library parsers (encoding/csv, base64, textproto, gob, jlexer, url.ParseRequestU
 parameters of these definitions; nothing is claimed about them.
 -/
 import Vegeta.Model.Flags
+import Vegeta.Model.JSONTargets
 namespace Vegeta.Model.ParserGuards
 open Vegeta.Go
 open Vegeta.Model.Histogram (trimSpace splitOn unmarshalParts eBadBuckets)
@@ -216,5 +217,55 @@ def jsonSkipLoop : List Bytes → Option (Bytes × List Bytes)
   | l :: rest =>
     let d := trimSpace l
     if d.length = 0 then jsonSkipLoop rest else some (d, rest)
+
+/-! ### JSON targeter: the reader's mutex as a state bit -/
+
+/-- the shared reader of `NewJSONTargeter`: what is left to read, and whether `rd`'s mutex is held -/
+structure JT where
+  src    : Bytes
+  locked : Bool
+  deriving Repr, DecidableEq
+
+/-- one call either returns (result, reader state) or never returns: `rd.Lock()` on a mutex that an
+earlier call left locked blocks for ever -/
+inductive JTRes (α : Type) where
+  | blocks
+  | returns (o : Outcome α) (st : JT)
+  deriving Repr
+
+/-- One call of the closure returned by `NewJSONTargeter`, statement by statement:
+`rd.Lock()`; the read loop `for len(jl.Data) == 0 { ReadBytes; if err != nil { break }; TrimSpace }`
+(C14's `popLine`; it is left through `break` or its condition only, the mutex stays held);
+`rd.Unlock()`; then `io.EOF` becomes `ErrNoTargets`, any line is decoded (`finish`). -/
+def jtCall (cfg : Vegeta.Model.JSONTargets.Cfg) (st : JT) : JTRes Vegeta.Model.JSONTargets.JRec :=
+  if st.locked then .blocks else
+  let held : JT := { st with locked := true }                                        -- rd.Lock()
+  let p := Vegeta.Model.JSONTargets.popLine (held.src.length + 1) held.src           -- the loop
+  let afterLoop : JT := { src := p.2, locked := held.locked }
+  let released : JT := { afterLoop with locked := false }                            -- rd.Unlock()
+  match p.1 with
+  | none => .returns (.error Vegeta.Model.JSONTargets.eNoTargets) released
+  | some line => .returns (Vegeta.Model.JSONTargets.finish cfg line) released
+
+/-- The variant in which end of input returns from INSIDE the loop (`return ErrNoTargets` before
+`rd.Unlock()`): not the code that exists — kept to state what the lock discipline excludes. -/
+def jtCallEarlyReturn (cfg : Vegeta.Model.JSONTargets.Cfg) (st : JT) : JTRes Vegeta.Model.JSONTargets.JRec :=
+  if st.locked then .blocks else
+  let held : JT := { st with locked := true }
+  let p := Vegeta.Model.JSONTargets.popLine (held.src.length + 1) held.src
+  match p.1 with
+  | none => .returns (.error Vegeta.Model.JSONTargets.eNoTargets) { src := p.2, locked := held.locked }   -- returns with the mutex held
+  | some line => .returns (Vegeta.Model.JSONTargets.finish cfg line) { src := p.2, locked := false }
+
+/-- `n` calls one after the other on the shared reader; `none` = some call never returned -/
+def jtCalls (call : JT → JTRes Vegeta.Model.JSONTargets.JRec) : Nat → JT → Option (List (Outcome Vegeta.Model.JSONTargets.JRec) × JT)
+  | 0, st => some ([], st)
+  | n + 1, st =>
+    match call st with
+    | .blocks => none
+    | .returns o st1 =>
+      match jtCalls call n st1 with
+      | none => none
+      | some (os, st2) => some (o :: os, st2)
 
 end Vegeta.Model.ParserGuards
